@@ -13,6 +13,9 @@ Decides (from the THIR of /repo's current source, nothing is executed):
     arithmetic right shift only
  R6 operator traits delegate to the matching operation
 Does not decide: that apint's primitives compute what their names say.
+How the arm tables are read: the whole function is evaluated once per operator with the dispatched-on parameter bound to
+that constant (lib/sym fold + inline_local + flow_norm), so shared arms, private helpers per operator family, guard clauses,
+function-pointer tables and a common tail after the match give the same per-operator term as one arm per operator.
 """
 from .lib import sym as S
 from .lib import thir as T
